@@ -36,23 +36,23 @@ func bLocID(l string) uint64 {
 
 // bWorld holds the concrete side of one bundle scenario
 type bWorld struct {
-	r        *rng.R
-	keys     map[string]macaroon.SigningKey // kid -> key known to the resolver
-	tpKeys   map[string]macaroon.EncryptionKey
-	ids      map[string]uint64 // token string -> identity
-	strs     map[uint64]string
-	nextID   uint64
-	tickets  map[string]uint64
-	kids     map[string]uint64
-	csIDs    map[string]uint64
-	csSets   map[uint64]*macaroon.CaveatSet
-	vt, ct   map[string]string // table entries, keyed for dedup
-	at, cst  map[string]string
-	slots    map[uint64]*bundle.Bundle
-	caches   map[uint64]*bundle.VerificationCache
-	innerLog []uint64
-	reqs     []*flyio.Access
-	cavLists [][]macaroon.Caveat
+	r         *rng.R
+	keys      map[string]macaroon.SigningKey // kid -> key known to the resolver
+	tpKeys    map[string]macaroon.EncryptionKey
+	ids       map[string]uint64 // token string -> identity
+	strs      map[uint64]string
+	nextID    uint64
+	tickets   map[string]uint64
+	kids      map[string]uint64
+	csIDs     map[string]uint64
+	csSets    map[uint64]*macaroon.CaveatSet
+	vt, ct    map[string]string // table entries, keyed for dedup
+	at, cst   map[string]string
+	slots     map[uint64]*bundle.Bundle
+	caches    map[uint64]*bundle.VerificationCache
+	innerLog  []uint64
+	reqs      []*flyio.Access
+	cavLists  [][]macaroon.Caveat
 	sameNonce []string
 	sameTail  []string
 }
@@ -315,10 +315,10 @@ func (w *bWorld) pool() (perms, dis, junk []string) {
 	p4, _ := macaroon.New([]byte("k1"), bLocs[0], w.keys["k1"])
 	p4.Add(&flyio.Organization{ID: 2, Mask: resset.ActionAll}) // clears only requests about organisation 2
 	p1a, _ := p1.Clone()
-	p1a.Add(&rd) // attenuated variant of p1
-	pbad := mk("k1", macaroon.NewSigningKey(), bLocs[0])       // wrongly keyed
-	punk := mk("zz", w.keys["k1"], bLocs[0])                   // unknown key-id
-	pforeign := mk("k1", w.keys["k1"], bLocs[3])               // foreign location: never a permission token
+	p1a.Add(&rd)                                         // attenuated variant of p1
+	pbad := mk("k1", macaroon.NewSigningKey(), bLocs[0]) // wrongly keyed
+	punk := mk("zz", w.keys["k1"], bLocs[0])             // unknown key-id
+	pforeign := mk("k1", w.keys["k1"], bLocs[3])         // foreign location: never a permission token
 	perms = []string{str(p0), str(p1), str(p2), str(p1a), str(pbad), str(punk), str(p3), str(p4), str(p4)}
 	d1 := discharge(p1, bLocs[1], w.tpKeys[bLocs[1]])
 	d2a := discharge(p2, bLocs[1], w.tpKeys[bLocs[1]], &rd)
@@ -512,6 +512,45 @@ func genBundle(c *ctx, cached bool) {
 			sort.Slice(lg, func(a, b int) bool { return lg[a] < lg[b] })
 			rec(coqw.App("BVerifyCached", coqw.N(s), coqw.N(0)), append(zl(ids), zl(lg)...))
 		}
+		doDischarge := func(s, tp uint64, good bool) {
+			b := w.slots[s]
+			key := w.tpKeys[bLocs[tp]]
+			if !good {
+				key = macaroon.NewEncryptionKey()
+			}
+			// make sure every ticket of the bundle is registered before the new discharges are read
+			bundle.ForEach(b, func(t bundle.Token) { w.tokCoq(t) })
+			// the model's key_ok: the key opens EVERY undischarged ticket of that location (else nothing is added)
+			for _, tk := range b.UndischargedTicketsForThirdParty(bLocs[tp]) {
+				if _, _, derr := macaroon.DischargeTicket(key, bLocs[tp], tk); derr != nil {
+					good = false
+				}
+			}
+			first := w.nextID
+			before := b.Len()
+			err := b.Discharge(bLocs[tp], key, func(cv []macaroon.Caveat) ([]macaroon.Caveat, error) { return nil, nil })
+			idx := 0
+			bundle.ForEach(b, func(t bundle.Token) {
+				if idx >= before {
+					w.id(t.String())
+				}
+				idx++
+			})
+			rec(coqw.App("BDischarge", coqw.N(s), coqw.N(tp), coqw.Bool(good), coqw.N(first)), []int64{b2i64x(err == nil)})
+		}
+		if !cached && r.P(1, 6) {
+			// all or nothing: two tokens with a ticket for tp1, one of which tp1's key cannot open -- Discharge must fail and
+			// leave the bundle as it was; then the same with only the openable one
+			s1 := parseHdr(perms[1] + "," + perms[6])
+			doDischarge(s1, 1, true)
+			rec(coqw.App("BLen", coqw.N(s1)), []int64{int64(w.slots[s1].Len())})
+			rec(coqw.App("BHeader", coqw.N(s1)), w.headerObs(w.slots[s1]))
+			s2 := parseHdr(perms[1] + "," + perms[2])
+			doDischarge(s2, 1, true)
+			rec(coqw.App("BLen", coqw.N(s2)), []int64{int64(w.slots[s2].Len())})
+			doDischarge(s2, 2, r.Bool())
+			rec(coqw.App("BHeader", coqw.N(s2)), w.headerObs(w.slots[s2]))
+		}
 		if cached && r.P(1, 4) {
 			// the same permission token with discharges that share a nonce but differ in caveats / signature
 			order := append([]string{}, w.sameNonce...)
@@ -623,31 +662,7 @@ func genBundle(c *ctx, cached bool) {
 				err := b.Attenuate(w.cavLists[cl]...)
 				rec(coqw.App("BAttenuate", coqw.N(s), coqw.N(cl)), []int64{b2i64x(err == nil)})
 			case 10:
-				tp := uint64(1 + r.Intn(2))
-				good := !r.P(1, 4)
-				key := w.tpKeys[bLocs[tp]]
-				if !good {
-					key = macaroon.NewEncryptionKey()
-				}
-				// make sure every ticket of the bundle is registered before the new discharges are read
-				bundle.ForEach(b, func(t bundle.Token) { w.tokCoq(t) })
-				// the model's key_ok: the key opens EVERY undischarged ticket of that location (else nothing is added)
-				for _, tk := range b.UndischargedTicketsForThirdParty(bLocs[tp]) {
-					if _, _, derr := macaroon.DischargeTicket(key, bLocs[tp], tk); derr != nil {
-						good = false
-					}
-				}
-				first := w.nextID
-				before := b.Len()
-				err := b.Discharge(bLocs[tp], key, func(cv []macaroon.Caveat) ([]macaroon.Caveat, error) { return nil, nil })
-				idx := 0
-				bundle.ForEach(b, func(t bundle.Token) {
-					if idx >= before {
-						w.id(t.String())
-					}
-					idx++
-				})
-				rec(coqw.App("BDischarge", coqw.N(s), coqw.N(tp), coqw.Bool(good), coqw.N(first)), []int64{b2i64x(err == nil)})
+				doDischarge(s, uint64(1+r.Intn(2)), !r.P(1, 4))
 			case 11:
 				d := newSlot()
 				w.slots[d] = b.Clone()
@@ -807,4 +822,3 @@ func bundleAttenuate3P(r *rng.R) string {
 	}
 	return ""
 }
-
